@@ -216,3 +216,5 @@ Fixpoint trace_from (st : state N) (h : list (op N)) : list obs :=
   | o :: r => let st' := step st o in observe st' :: trace_from st' r
   end.
 Definition model_dump (h : list (op N)) : list N := flat_map enc_obs (trace_from init h).
+(* ... or only the dump after the last op (long histories: rows of hundreds of cells) *)
+Definition model_dump_last (h : list (op N)) : list N := enc_obs (observe (run h)).
